@@ -234,7 +234,10 @@ class DoctestPart:
             got_ = ''.join(trailing_gots[-i:])
             try:
                 checker.check_got_vs_want(part.want, got_, got_eval, runstate)
-            except checker.GotWantException as ex:
+            except (checker.GotWantException,
+                    checker.ExtractGotReprException) as ex:
+                # A value whose repr cannot be computed can still be
+                # satisfied by a longer trailing sequence of stdout.
                 exceptions.append(ex)
             else:
                 success = True
